@@ -229,6 +229,7 @@ def raise_value_error(msg):
 
 
 def raise_key_error(msg):
+  _count('raise_key_error')
   raise KeyError(msg)
 
 
